@@ -297,7 +297,7 @@ func (rn *runner) cli(inputs []Input) {
 				env = append(env, "TASK_X_REMOTE_TASKFILES=1")
 			}
 			script := fmt.Sprintf(`ulimit -v %d; ulimit -t %d; exec "$@"`, memLimitKB, cpuLimitSec)
-			res := h.CLI{Bin: "/bin/sh", Dir: dir, Args: append([]string{"-c", script, "sh", rn.bin}, args...), Env: env, Timeout: 120 * time.Second}.Run()
+			res := Proc{Bin: "/bin/sh", Dir: dir, Args: append([]string{"-c", script, "sh", rn.bin}, args...), Env: env, Timeout: 120 * time.Second, TmpDir: rn.scratch}.Run()
 			rn.part.Count("cli_runs", 1)
 			rn.part.Count("cli_mode_"+iv.m.name, 1)
 			rn.part.Eval(h.Hash(fh, "cli", strings.Join(args, "\x00")), rn.mutated(in))
@@ -323,7 +323,7 @@ func (rn *runner) cli(inputs []Input) {
 				// a panicking goroutine runs its deferred calls first (errgroup's Done), so other goroutines
 				// race ahead and may crash on the half-built state before the runtime has finished dying:
 				// the crash site printed can be a secondary one. One P makes the primary site win.
-				res1 := h.CLI{Bin: "/bin/sh", Dir: dir, Args: append([]string{"-c", script, "sh", rn.bin}, args...), Env: append(env, "GOMAXPROCS=1"), Timeout: 120 * time.Second}.Run()
+				res1 := Proc{Bin: "/bin/sh", Dir: dir, Args: append([]string{"-c", script, "sh", rn.bin}, args...), Env: append(env, "GOMAXPROCS=1"), Timeout: 120 * time.Second, TmpDir: rn.scratch}.Run()
 				if sig1, what1 := classify(res1.Stderr, res1.Signal, res1.Exit, res1.TimedOut, res1.CPU, "cli:"+iv.m.name); strings.HasPrefix(sig1, "C16 | panic") || strings.HasPrefix(sig1, "C16 | fatal") {
 					if sig1 != sig {
 						rn.part.Count("crash_site_reattributed_with_one_P", 1)
